@@ -447,4 +447,62 @@ theorem update_fresh (f : List ℝ → ℝ) (w : W ℝ) (params : PList ℝ) (ho
         (by simp [enable1_en1 w.fn w.c1 hk]) (by simp) (by simp)
       split <;> (rename_i h; rw [h] at this; exact this)
 
+
+/-! ### the switch alone (no hypothesis on what happened before) -/
+
+theorem setParameters_en1 (f : List ℝ → ℝ) (fn : Fn ℝ) (pl : PList ℝ) : (fn.setParameters f pl).1.en1 = fn.en1 := by
+  rcases setParameters_shape f fn pl with e | ⟨own, e⟩ <;> rw [e] <;> rfl
+
+theorem ending_flags (f : List ℝ → ℝ) (params : PList ℝ) (w : W ℝ) (fn0 : Fn ℝ) (r : W ℝ × Option Exc)
+    (hend : Ending f params w fn0 r) (hk : w.fn.kind ≥ 1) (h0 : fn0.en1 = false) (hk0 : fn0.kind = w.fn.kind)
+    (hnone : r.2 = none) : r.1.fn.en1 = w.c1 := by
+  cases hend with
+  | raised h => exact absurd hnone h
+  | tooLarge fn1 hr hb he => exact he.2 (by rw [hr.kind, hk0]; exact hk)
+  | finished w' lv all hr hc he =>
+    have hoff : Off1 fn0.pt1 w'.fn := Off1.reachS (⟨h0, rfl⟩ : Off1 fn0.pt1 fn0) hr
+    have hk' : w'.fn.kind ≥ 1 := by rw [hr.kind, hk0]; exact hk
+    obtain ⟨a, _⟩ := finish_fresh f params lv all w' fn0.pt1 hk' hoff
+    rw [← he] at a
+    rw [a, hc.2.1]
+
+/-- after `updateDerivatives` returns, the wrapped function's analytical first-order derivatives
+are on iff the wrapper's first-order derivatives are on -/
+theorem update_flags (f : List ℝ → ℝ) (w : W ℝ) (params : PList ℝ) (hk : w.fn.kind ≥ 1)
+    (hnone : (w.update f params).2 = none) : (w.update f params).1.fn.en1 = w.c1 := by
+  have helse : ∀ fnE : Fn ℝ, fnE.en1 = w.c1 → (fnE.setParameters f params).1.en1 = w.c1 := by
+    intro fnE h1; rw [setParameters_en1]; exact h1
+  unfold W.update at hnone ⊢
+  cases hs : w.scheme with
+  | two =>
+    rw [hs] at hnone
+    simp only [] at hnone ⊢
+    by_cases hcond : (w.c1 && decide (w.vars.length > 0)) = true
+    · exact ending_flags f params w _ _ (update2_decomp f w params hcond) hk (enable1_en1 w.fn false hk) (by simp) hnone
+    · unfold update2
+      rw [if_neg hcond]
+      simp only []
+      have := helse (({ w with fn := w.fn.enable1 w.c1 } : W ℝ).enable2 w.c2) (by simp [enable1_en1 w.fn w.c1 hk])
+      split <;> (rename_i h; rw [h] at this; exact this)
+  | three =>
+    rw [hs] at hnone
+    simp only [] at hnone ⊢
+    by_cases hcond : (w.c1 && decide (w.vars.length > 0)) = true
+    · exact ending_flags f params w _ _ (update3_decomp f w params hcond) hk (by simp [enable1_en1 w.fn false hk]) (by simp) hnone
+    · unfold update3
+      rw [if_neg hcond]
+      simp only []
+      have := helse ((w.fn.enable1 w.c1).enable2 w.c2) (by simp [enable1_en1 w.fn w.c1 hk])
+      split <;> (rename_i h; rw [h] at this; exact this)
+  | five =>
+    rw [hs] at hnone
+    simp only [] at hnone ⊢
+    by_cases hcond : (w.c1 && decide (w.vars.length > 0)) = true
+    · exact ending_flags f params w _ _ (update5_decomp f w params hcond) hk (by simp [enable1_en1 w.fn false hk]) (by simp) hnone
+    · unfold update5
+      rw [if_neg hcond]
+      simp only []
+      have := helse ((w.fn.enable1 w.c1).enable2 w.c2) (by simp [enable1_en1 w.fn w.c1 hk])
+      split <;> (rename_i h; rw [h] at this; exact this)
+
 end Bpp.NumDeriv
